@@ -15,7 +15,7 @@ trap cleanup EXIT
 cd $WT
 demo=zz_seed_demo_test.go
 run_demo() {
-  if [ -f $D/demo_test.go ]; then cp $D/demo_test.go $WT/$demo; go test -vet=off -count=1 -run 'Seed|Demo|ZZ|zz' . >/tmp/seedeval.$$.log 2>&1; rc=$?; rm -f $WT/$demo; return $rc
+  if ls $D/demo_test.go* >/dev/null 2>&1; then cp $D/demo_test.go* $WT/$demo; go test -vet=off -count=1 -run 'Seed|Demo|ZZ|zz' . >/tmp/seedeval.$$.log 2>&1; rc=$?; rm -f $WT/$demo; return $rc
   elif [ -f $D/main.go ]; then mkdir -p $WT/zzdemo; cp $D/main.go $WT/zzdemo/main.go; go run ./zzdemo >/tmp/seedeval.$$.log 2>&1; rc=$?; rm -rf $WT/zzdemo; return $rc
   else echo "no demo"; return 3; fi
 }
